@@ -23,7 +23,8 @@ RULE = (
     "throughput {none, number, 'n docs/s', interval} x tags {none, string, list} x name x schedule x meta x operation form {reference, "
     "inline, bare string}; (P) parallel elements: defaults group x clients x completed-by {none, task, any} x child overrides x 1..3 children; "
     "(C) challenge forms {schedule, challenge, challenges 1..2 with default flags and selection}; (D) corpora: 0..2 corpora x 1..2 document "
-    "sets x {archive, plain} x sizes x action-and-meta-data x indices xor data streams x target defaults; each in 3 spellings. invalid: 24 "
+    "sets x {archive, plain} x sizes x action-and-meta-data x indices xor data streams x target defaults; (F) index bodies, composable and "
+    "component templates in their own files using track parameters that appear nowhere else (absent / user-supplied); each in 3 spellings. invalid: 24 "
     "single-rule violations applied to 4 base models. non-trivial = every model (each differs in at least one attribute); distinct = (model, spelling)"
 )
 ASSUMPTIONS = [
@@ -83,6 +84,14 @@ def write_track(model, spelling, track_params_extra=None):
     os.makedirs(d)
     params = dict(track_params_extra or {})
     m = copy.deepcopy(model)
+    files = m.pop("_files", {})
+    params.update(m.pop("_params", {}))
+    m.pop("_expect", None)
+    for rel, content in files.items():
+        fp = os.path.join(d, rel)
+        os.makedirs(os.path.dirname(fp), exist_ok=True)
+        with open(fp, "w", encoding="utf-8") as f:
+            f.write(content)
     if spelling == "plain":
         text = json.dumps(m, indent=1)
     elif spelling == "jinja":
@@ -256,8 +265,10 @@ def expect(model):
                 "base_url": dspec.get("base-url", c.get("base-url")),
             })
         corpora.append({"name": c["name"], "documents": docs})
-    return {"challenges": challenges, "corpora": corpora, "indices": [i["name"] for i in model.get("indices", [])],
-            "data_streams": [i["name"] for i in model.get("data-streams", [])], "description": model.get("description", "")}
+    out = {"challenges": challenges, "corpora": corpora, "indices": [i["name"] for i in model.get("indices", [])],
+           "data_streams": [i["name"] for i in model.get("data-streams", [])], "description": model.get("description", "")}
+    out.update(model.get("_expect", {}))
+    return out
 
 
 def observe(trk):
@@ -291,8 +302,13 @@ def observe(trk):
             "document_file": d.document_file, "document_archive": d.document_archive, "number_of_documents": d.number_of_documents,
             "compressed": d.compressed_size_in_bytes, "uncompressed": d.uncompressed_size_in_bytes, "meta_lines": bool(d.includes_action_and_meta_data),
             "target_index": d.target_index, "target_data_stream": d.target_data_stream, "base_url": d.base_url} for d in c.documents]})
-    return {"challenges": chs, "corpora": corpora, "indices": [i.name for i in trk.indices], "data_streams": [d.name for d in trk.data_streams],
-            "description": trk.description}
+    out = {"challenges": chs, "corpora": corpora, "indices": [i.name for i in trk.indices], "data_streams": [d.name for d in trk.data_streams],
+           "description": trk.description}
+    if any(i.body for i in trk.indices):
+        out["index_bodies"] = [i.body for i in trk.indices]
+    if trk.templates or trk.composable_templates or trk.component_templates:
+        out["templates"] = [[t.name, t.pattern, t.content] for t in trk.templates + trk.composable_templates] + [[t.name, None, t.content] for t in trk.component_templates]
+    return out
 
 
 def first_diff(a, b, path=""):
@@ -481,6 +497,28 @@ def corpora_models():
     yield "D:two-indices-explicit-target", m
 
 
+def file_models():
+    """index bodies and templates live in their own files and may use track parameters that appear nowhere else"""
+    body_tmpl = '{"settings": {"index.number_of_shards": {{ number_of_shards | default(1) }}, "index.number_of_replicas": {{ number_of_replicas | default(0) }}}, "mappings": {"properties": {"f": {"type": "keyword"}}}}'
+    for user_params, shards, replicas in (({}, 1, 0), ({"number_of_shards": 3}, 3, 0), ({"number_of_shards": 5, "number_of_replicas": 2}, 5, 2)):
+        m = base_model()
+        m["indices"] = [{"name": "idx", "body": "index.json"}]
+        m["_files"] = {"index.json": body_tmpl}
+        m["_params"] = dict(user_params)
+        m["_expect"] = {"index_bodies": [{"settings": {"index.number_of_shards": shards, "index.number_of_replicas": replicas}, "mappings": {"properties": {"f": {"type": "keyword"}}}}]}
+        yield f"F:index-body:{sorted(user_params)}", m
+        m = base_model()
+        del m["indices"]
+        m["composable-templates"] = [{"name": "tpl", "index-pattern": "logs-*", "template": "tpl.json"}]
+        m["component-templates"] = [{"name": "comp", "template": "comp.json"}]
+        m["_files"] = {"tpl.json": '{"index_patterns": ["logs-*"], "template": {"settings": {"number_of_shards": {{ number_of_shards | default(1) }}}}}',
+                       "comp.json": '{"template": {"settings": {"number_of_replicas": {{ number_of_replicas | default(0) }}}}}'}
+        m["_params"] = dict(user_params)
+        m["_expect"] = {"templates": [["tpl", "logs-*", {"index_patterns": ["logs-*"], "template": {"settings": {"number_of_shards": shards}}}],
+                                      ["comp", None, {"template": {"settings": {"number_of_replicas": replicas}}}]]}
+        yield f"F:templates:{sorted(user_params)}", m
+
+
 def invalid_models():
     def bases():
         yield "b-simple", base_model()
@@ -565,7 +603,7 @@ def _job(arg):
 def run(tier, seed):
     valid = [(l, m, None) for l, m in task_models(tier)] + [(l, m, None) for l, m in parallel_models(tier)] + list(challenge_models()) + [
         (l, m, None) for l, m in corpora_models()
-    ]
+    ] + [(l, m, None) for l, m in file_models()]
     invalid = list(invalid_models())
     jobs = [("valid", ch) for ch in par.chunks(valid, par.NPROC * 4)] + [("invalid", ch) for ch in par.chunks(invalid, par.NPROC)]
     res = par.pmap(_job, jobs, seed=seed)
